@@ -40,7 +40,7 @@ KEY_POOLS = [
 ]
 WRAPPERS = ["[{t}][0]", "({t} if 1 else 0)", "(lambda: {t})()", "max([{t}])", "[0, {t}][-1]"]
 # mutable carriers for C17: the compared object is rebuilt in place for every comparison
-CARRIERS = ["list", "dict", "nested"]
+CARRIERS = ["list", "dict", "nested", "tup", "tup"]
 PLACEMENTS = ["func", "oneline", "samefunc", "nested", "param"]
 
 
@@ -70,6 +70,8 @@ class Beta:
             return {"k": v}
         if self.carrier == "nested":
             return [0, [v, "t"]]
+        if self.carrier == "tup":
+            return ("t", [v])          # an immutable tuple that holds a mutable list
         return v
 
     def val(self, a):
@@ -135,6 +137,10 @@ def stmt_expr(beta: Beta, s, site_expr: str, reflect: bool, x_expr: str | None =
     S = site_expr
     if op in ("none", "chg", "raise"):
         return S
+    if op == "eqbad":
+        return f"{S} == _Bad()" if reflect else f"_Bad() == {S}"
+    if op == "inbad":
+        return f"_Bad() in {S}"
     if op == "lebot":
         return f"{S} >= _Bot()" if reflect else f"_Bot() <= {S}"
     if op == "gebot":
@@ -159,6 +165,8 @@ def stmt_expr(beta: Beta, s, site_expr: str, reflect: bool, x_expr: str | None =
 
 HEADER = "from inline_snapshot import snapshot\nimport verif_rec as _r\n\n"
 BOT = "class _Bot:\n    pass\n\n\n"
+# a value whose deep copy is not equal to it (identity comparison)
+BAD = "class _Bad:\n    def __repr__(self):\n        return '_Bad()'\n\n\n"
 CHG_WRAPPER = "[{t}, {t2}][_chg[{i}]]"
 
 
@@ -189,6 +197,8 @@ def render(ops, srcs, prog, beta: Beta, imp: bool, rng: random.Random, placement
     out = [HEADER]
     if any(s["op"] in ("lebot", "gebot") for t in prog for s in t):
         out.append(BOT)
+    if any(s["op"] in ("eqbad", "inbad") for t in prog for s in t):
+        out.append(BAD)
     if has_chg(prog):
         out.append("_chg = {%s}\n\n" % ", ".join("%d: 0" % i for i in range(1, n + 1)))
     texts = [src_text(beta, op, src, i) for i, (op, src) in enumerate(zip(ops, srcs), 1)]
@@ -226,15 +236,19 @@ def render(ops, srcs, prog, beta: Beta, imp: bool, rng: random.Random, placement
                    "    else:\n        o.clear()\n        o.update(_copy.deepcopy(v))\n    return o\n\n\n")
     for ti, test in enumerate(prog, 1):
         out.append(f"def test_{ti}():\n")
+        tup = beta.carrier == "tup"
+
+        def mval(a):
+            return beta.val(a)[1] if tup else beta.val(a)
         if mutate:
-            out.append(f"    _o = _set({type(beta.val(0)).__name__}(), {beta.val(0)!r})\n")
+            out.append(f"    _o = _set({type(mval(0)).__name__}(), {mval(0)!r})\n")
         for j, s in enumerate(test, 1):
             refl = rng.random() < 0.5
             site = f"s{s['site']}()"
             xe = None
-            if mutate and s["op"] not in ("none", "chg", "raise", "lebot", "gebot"):
-                out.append(f"    _set(_o, {beta.val(s['x'])!r})\n")
-                xe = "_o"
+            if mutate and s["op"] not in ("none", "chg", "raise", "lebot", "gebot", "eqbad", "inbad"):
+                out.append(f"    _set(_o, {mval(s['x'])!r})\n")
+                xe = '("t", _o)' if tup else "_o"
             if placement == "param" and s["op"] not in ("none", "chg", "raise"):
                 e = "_cmp(lambda _s: %s, %s)" % (stmt_expr(beta, s, "_s", refl, xe), site)
             else:
@@ -251,9 +265,9 @@ def render(ops, srcs, prog, beta: Beta, imp: bool, rng: random.Random, placement
                 out.append(f"        assert {e}\n")
             else:
                 out.append(f"        _r.val({e})\n")
-            if mutate and s["op"] not in ("none", "chg", "raise", "lebot", "gebot"):
+            if mutate and s["op"] not in ("none", "chg", "raise", "lebot", "gebot", "eqbad", "inbad"):
                 # mutate the object that was just compared (the next comparison sets it again)
-                out.append(f"    _set(_o, {beta.val((s['x'] + 1) % len(beta.atoms))!r})\n")
+                out.append(f"    _set(_o, {mval((s['x'] + 1) % len(beta.atoms))!r})\n")
         out.append("\n\n")
     return "".join(out)
 
